@@ -41,13 +41,41 @@ def _load(prop):
     return mod
 
 
+_COV = [None]
+
+
+def _cover_begin():
+    """development aid (tools/cover_audit.sh): line coverage of the repository code by the native runs (coverage.py) and by the interpreter (tverif.interp._COVER)"""
+    d = os.environ.get("TVERIF_COVER")
+    if not d or _COV[0] is not None:
+        return
+    import coverage
+    os.makedirs(d, exist_ok=True)
+    _COV[0] = coverage.Coverage(data_file=os.path.join(d, f".coverage.{os.getpid()}"), source=[os.path.join(os.environ.get("TVERIF_REPO", "/repo"), "tangelo")])
+    _COV[0].start()
+
+
+def _cover_end():
+    d = os.environ.get("TVERIF_COVER")
+    if not d or _COV[0] is None:
+        return
+    from tverif import interp as _interp
+    _COV[0].save()
+    with open(os.path.join(d, f"interp.{os.getpid()}.txt"), "w") as f:
+        for fn, ln in sorted((a or "?", b) for a, b in _interp._COVER):
+            f.write(f"{fn}:{ln}\n")
+
+
 def _task(args):
     cid, st, tier, timeout_ms, both, seed = args
     from tverif.engine import run_task
+    _cover_begin()
     try:
         return run_task(cid, st, tier, timeout_ms, both, seed)
     except BaseException as e:  # checker crash inside a worker
         return {"cid": cid, "st": st, "crash": f"{type(e).__name__}: {e}\n{traceback.format_exc()}"}
+    finally:
+        _cover_end()
 
 
 def load_known():
@@ -259,6 +287,9 @@ def run_property(prop, tier, seed, jobs):
           f"solver_calls={solver_calls} solver_time={solver_time:.1f}s wall={time.time() - t0:.1f}s")
     slow = sorted((r for r in results if "crash" not in r), key=lambda r: -r["wall"])[:3]
     print("slowest tasks: " + "; ".join(f"{r['cid'].split('.', 1)[1][:30]} {r['wall']:.1f}s paths={r['paths']}" for r in slow))
+    if os.environ.get("TVERIF_SLOW"):          # development aid: the structures of the slowest tasks
+        for r in sorted((r for r in results if "crash" not in r), key=lambda r: -r["wall"])[:int(os.environ["TVERIF_SLOW"])]:
+            print(f"   slow: {r['wall']:.1f}s {r['cid']} {json.dumps(r['st'], default=str)[:300]}")
     if crashes:
         return 3
     if violations:
